@@ -274,6 +274,7 @@ Proof.
   - destruct (existsb (String.eqb path) (colls d) || _); [discriminate|]. inversion H; subst. exact Hd.
   - inversion H; subst. exact Hd.
   - inversion H; subst. exact Hd.
+  - inversion H; subst. exact Hd.
 Qed.
 
 Lemma step_good d o d' : Good d -> arg_good o -> step all_off d o = Some d' -> Good d'.
@@ -1110,4 +1111,45 @@ Lemma ext_graph_fill d o g xrows fl nx id ob :
 Proof.
   unfold ext_graph. destruct (extend all_off d o); [|discriminate]. intro H. inversion H; subst; clear H.
   intro Hf. cbv beta. rewrite Hf. destruct (existsb (fun x => Nat.eqb (fst x) id) (store d)); reflexivity.
+Qed.
+
+(* ------------------------------------------------------------------ filter(idx=mask, ...) *)
+Lemma map2_andb_narrows : forall (m l : list bool) k, nth k (map2 andb m l) false = true -> nth k m false = true.
+Proof.
+  induction m as [|a m IH]; intros [|b l] k H; simpl in *; try (destruct k; discriminate).
+  destruct k; simpl in *; [now apply andb_prop in H|eauto].
+Qed.
+
+Lemma filter_from_narrows d cs : forall start r,
+  fold_left (fun acc c =>
+    match acc, field_obj d (fst c) with
+    | Some m, Some ob => if otwo ob then None else Some (map2 andb m (map (fun r => value_eqb (cval r) (snd c)) (orows ob)))
+    | _, _ => None
+    end) cs (Some start) = Some r ->
+  forall k, nth k r false = true -> nth k start false = true.
+Proof.
+  induction cs as [|c cs IH]; intros start r H k Hk; simpl in H.
+  - now inversion H; subst.
+  - destruct (field_obj d (fst c)) as [ob|].
+    + destruct (otwo ob).
+      * clear -H. exfalso. induction cs; simpl in H; [discriminate|auto].
+      * eapply map2_andb_narrows. eapply IH; eauto.
+    + clear -H. exfalso. induction cs; simpl in H; [discriminate|auto].
+Qed.
+
+(* filter(idx=mask, ...) is a query: the dataset is unchanged, the answer selects only rows the caller's mask
+   selects, without conditions it is the caller's mask, and a mask of the wrong length is refused *)
+Lemma filter_idx_spec_l d idx cs :
+  (forall d', step all_off d (FilterIdx idx cs) = Some d' -> d' = d) /\
+  (forall r, filter_mask_from d idx cs = Some r ->
+     length idx = num_obs d /\ forall k, nth k r false = true -> nth k idx false = true) /\
+  (length idx = num_obs d -> filter_mask_from d idx [] = Some idx) /\
+  (length idx <> num_obs d -> filter_mask_from d idx cs = None).
+Proof.
+  split; [|split; [|split]].
+  - intros d' H. apply step_step0 in H. destruct H as [H _]. simpl in H. now inversion H.
+  - intros r H. unfold filter_mask_from in H. destruct (Nat.eqb (length idx) (num_obs d)) eqn:E; [|discriminate].
+    simpl in H. apply Nat.eqb_eq in E. split; [exact E|]. exact (filter_from_narrows d cs idx r H).
+  - intro H. unfold filter_mask_from. apply Nat.eqb_eq in H. now rewrite H.
+  - intro H. unfold filter_mask_from. apply Nat.eqb_neq in H. now rewrite H.
 Qed.
